@@ -58,28 +58,28 @@ def run_kind(ctx, kind, runs):
     return fails, cov
 
 
-def conc(ctx, nhist, clients, nops):
+def conc(ctx, nhist, clients, nops, mode='simpleconc'):
     """concurrent clients on one file of the simple server: a sequential order over the extracted specification must
        explain every history"""
     fails, ok, unknown = [], 0, 0
     for k in range(nhist):
         seed = ctx.seed * 1000 + k
-        trace = os.path.join(ctx.work, 'simpleconc.trace')
-        rep = dict(kind='simpleconc', seed=seed, clients=clients, nops=nops, how='h simpleconc -seed S -clients C -nops N -out T ; drv simpleconc T')
-        rc, o, e = vlib.harness(['simpleconc', '-seed', str(seed), '-clients', str(clients), '-nops', str(nops), '-out', trace], timeout=300)
+        trace = os.path.join(ctx.work, mode + '.trace')
+        rep = dict(kind=mode, seed=seed, clients=clients, nops=nops, how='h %s -seed S -clients C -nops N -out T ; drv %s T' % (mode, mode))
+        rc, o, e = vlib.harness([mode, '-seed', str(seed), '-clients', str(clients), '-nops', str(nops), '-out', trace], timeout=300)
         if rc != 0:
-            fails.append(Failure(ctx.prop, 'panic', 'simpleconc-harness', (e or o)[-400:], replay=rep))
+            fails.append(Failure(ctx.prop, 'panic', mode + '-harness', (e or o)[-400:], replay=rep))
             continue
-        rc2, o, e = vlib.sh('ulimit -s unlimited 2>/dev/null; exec %s simpleconc %s' % (os.path.join(vlib.BIN, 'drv'), trace), timeout=600)
+        rc2, o, e = vlib.sh('ulimit -s unlimited 2>/dev/null; exec %s %s %s' % (os.path.join(vlib.BIN, 'drv'), mode, trace), timeout=600)
         for line in o.splitlines():
             if line.startswith('N lin OK'):
                 ok += 1
             elif line.startswith('N lin UNKNOWN'):
                 unknown += 1
             elif line.startswith('N ') and ' BAD ' in line:
-                fails.append(Failure(ctx.prop, 'lin', 'simple', line[2:300], replay=rep))
+                fails.append(Failure(ctx.prop, 'lin', mode, line[2:300], replay=rep))
         if rc2 != 0:
-            fails.append(Failure(ctx.prop, 'tie', 'simpleconc-driver', (o + e)[-300:], replay=rep))
+            fails.append(Failure(ctx.prop, 'tie', mode + '-driver', (o + e)[-300:], replay=rep))
     seen, out = set(), []
     for f in fails:
         if (f.kind, f.where) not in seen:
@@ -101,10 +101,11 @@ def run(ctx, ps, gen_bad):
 def replay(ctx, path):
     import json
     r = json.load(open(path))
-    if r.get('kind') == 'simpleconc' or r.get('how', '').startswith('h simpleconc'):
-        trace = os.path.join(ctx.work, 'simpleconc_replay.trace')
-        vlib.harness(['simpleconc', '-seed', str(r['seed']), '-clients', str(r['clients']), '-nops', str(r['nops']), '-out', trace], timeout=300)
-        rc2, o, e = vlib.sh('ulimit -s unlimited 2>/dev/null; exec %s simpleconc %s' % (os.path.join(vlib.BIN, 'drv'), trace), timeout=600)
+    if r.get('kind') in ('simpleconc', 'kvsconc'):
+        mode = r['kind']
+        trace = os.path.join(ctx.work, mode + '_replay.trace')
+        vlib.harness([mode, '-seed', str(r['seed']), '-clients', str(r['clients']), '-nops', str(r['nops']), '-out', trace], timeout=300)
+        rc2, o, e = vlib.sh('ulimit -s unlimited 2>/dev/null; exec %s %s %s' % (os.path.join(vlib.BIN, 'drv'), mode, trace), timeout=600)
         print(o[-600:])
         return 1 if ' BAD ' in o else 0
     fs, st = one(ctx, r['kind'], r['seed'], r['ncalls'], r['budget'], 'replay')
